@@ -118,7 +118,8 @@ Lemma table_entry_k pcl fresh cls R a :
   code_at im pcl ([LAB fresh] ++ code_table x86_backend cls fresh ++ R) ->
   PM.find pcl (addr_of im) = Some a ->
   forall k, (S k < List.length cls)%nat ->
-    PM.find (key (a + 5 * Z.of_nat (S k))) (index_at im) = Some (padd pcl (1 + S k)).
+    PM.find (key (a + 5 * Z.of_nat (S k))) (index_at im) = Some (padd pcl (1 + S k)) /\
+    PM.find (padd pcl (1 + S k)) (addr_of im) = Some (a + 5 * Z.of_nat (S k)).
 Proof.
   intros CA A k Hk.
   set (tb := code_table x86_backend cls fresh) in *.
@@ -142,6 +143,7 @@ Proof.
     cbn [flat_map app] in Ek. destruct k; cbn [nth_error] in Ek; [inversion Ek; reflexivity|eauto]. }
   pose proof (io_index im IMG _ ck ck' _ CK CK' ltac:(lia) (ADDR k ltac:(lia))) as IXk.
   rewrite SZ in IXk. replace (a + 5 * Z.of_nat (S k)) with (a + 5 * Z.of_nat k + 5) by lia.
+  split; [|rewrite (ADDR (S k) ltac:(lia)); f_equal; lia].
   rewrite IXk. f_equal. rewrite <- padd_succ. reflexivity.
 Qed.
 
@@ -155,6 +157,7 @@ Lemma dispatch_layout types ld bc pcl fresh cls c5 lc3 lc5 a :
   forall k c, nth_error cls k = Some c ->
     exists i pcc lcl cl lcb cb lcb',
       PM.find (key (a + (if Nat.leb (List.length cls) 1 then 0 else jump_length (N.of_nat k)))) (index_at im) = Some i /\
+      (exists pca, PM.find pca (addr_of im) = Some (a + (if Nat.leb (List.length cls) 1 then 0 else jump_length (N.of_nat k)))) /\
       (forall s, exec_to im i s pcc s) /\
       (Nat.leb (List.length cls) 1 = true -> forall s, exec_to im pcl s pcc s) /\
       ld (cl_ctx c) lcl = Ok (cl, lcb) /\ xcs types (cl_body c) (bc (cl_ctx c)) lcb = Ok (cb, lcb') /\
@@ -203,7 +206,7 @@ Proof.
     { intros s. eapply exec_next; [exact C0|reflexivity|].
       specialize (INTO s). rewrite J1 in INTO. cbn [padd] in INTO. rewrite J1. cbn [padd]. exact INTO. }
     exists i0, (padd pcl (S jl)), lc0, cl, lc1, cb, lc2.
-    split; [rewrite Z.add_0_r; exact IX0|]. split; [intros s; eapply exec_to_trans; [apply B0|apply DOWN]|].
+    split; [rewrite Z.add_0_r; exact IX0|]. split; [exists pcl; rewrite Z.add_0_r; exact AL|]. split; [intros s; eapply exec_to_trans; [apply B0|apply DOWN]|].
     split; [intros _; exact DOWN|]. repeat split; auto.
   - (* the jump table *)
     assert (TB : tb = code_table x86_backend cls fresh) by (unfold tb, table_or_nil; now rewrite LE).
@@ -216,10 +219,13 @@ Proof.
     destruct k as [|k].
     + exists i0, (padd pcl (S jl)), lc0, cl, lc1, cb, lc2.
       split; [unfold jump_length; cbn [N.of_nat Z.of_N]; rewrite Z.mul_0_r, Z.add_0_r; exact IX0|].
+      split; [exists pcl; unfold jump_length; cbn [N.of_nat Z.of_N]; rewrite Z.mul_0_r, Z.add_0_r; exact AL|].
       split; [|split; [discriminate|repeat split; auto]].
       intros s. eapply exec_to_trans; [apply B0|]. eapply exec_next; [exact C0|reflexivity|]. apply (FROM s).
     + exists (padd pcl (1 + S k)), (padd pcl (S jl)), lc0, cl, lc1, cb, lc2.
-      split; [unfold jump_length; rewrite nat_N_Z; apply (table_entry_k pcl fresh cls _ a CODE AL k Lk)|].
+      destruct (table_entry_k pcl fresh cls _ a CODE AL k Lk) as [TE1 TE2].
+      split; [unfold jump_length; rewrite nat_N_Z; exact TE1|].
+      split; [exists (padd pcl (1 + S k)); unfold jump_length; rewrite nat_N_Z; exact TE2|].
       split; [exact FROM|split; [discriminate|repeat split; auto]].
 Qed.
 End Layout.
